@@ -67,6 +67,56 @@ def build(g, kind, flag, m=2, mo=2, boundary=False, c=None, counts=None):
     return qt, true, testers
 
 
+_SIG = [np.array([[0, 1], [1, 0]], dtype=complex), np.array([[0, -1j], [1j, 0]]), np.array([[1, 0], [0, -1]], dtype=complex)]
+AXES_SETS = [
+    [(1, 0, 0), (0, 1, 0), (1, 0, 1)],            # X, Y, (X+Z)/sqrt2
+    [(1, 1, 0), (0, 1, 1), (1, 0, 1)],            # a skew set
+    [(0, 0, 1), (1, 2, 0), (2, -1, 1)],
+    [(1, 1, 1), (1, -1, 0), (0, 1, -2)],
+]
+
+
+def _axis_mat(n):
+    n = np.array(n, dtype=float); n = n / np.linalg.norm(n)
+    return sum(a * sg for a, sg in zip(n, _SIG))
+
+
+def unsharp_povm(c, axis, vis):
+    ns_ = _axis_mat(axis)
+    return qobj.Povm(c, [qobj.vec_of(c, (np.eye(2) + sgn * vis * ns_) / 2) for sgn in (1, -1)])
+
+
+def build_special(g, kind, flag, special):
+    """'det:k'  – boundary true object that makes schedule k (not the last) deterministic, testers of unequal
+                  sensitivity (visibilities 1, 1/2, 4/5 …), so a zero covariance block sits in a non-last position;
+       'axes:i' – state tomography with three *projective* testers along the fixed axis set i: every such matA has the
+                  same shape and Frobenius norm, the left inverses differ."""
+    c = qobj.csys("qubit")
+    what, k = special.split(":"); k = int(k)
+    if what == "axes":
+        povms = [unsharp_povm(c, ax, 1.0) for ax in AXES_SETS[k]]
+        qt = StandardQst(povms, on_para_eq_constraint=flag)
+        true = qobj.State(c, qobj.vec_of(c, qobj.rand_density(g, 2)), on_para_eq_constraint=flag)
+        return qt, true, {"povms": povms}
+    if kind == "qst":
+        axes = [g.standard_normal(3) for _ in range(3)]
+        vis = [0.5, 0.8, 0.65]
+        vis[k] = 1.0
+        povms = [unsharp_povm(c, ax, v) for ax, v in zip(axes, vis)]
+        qt = StandardQst(povms, on_para_eq_constraint=flag)
+        true = qobj.State(c, qobj.vec_of(c, (np.eye(2) + _axis_mat(axes[k])) / 2), on_para_eq_constraint=flag)
+        return qt, true, {"povms": povms}
+    if kind == "povmt":
+        ax = g.standard_normal(3)
+        states = _tester_states(g, c, 4, pure_first=False)
+        states[k] = qobj.State(c, qobj.vec_of(c, (np.eye(2) + _axis_mat(ax)) / 2))
+        qt = StandardPovmt(states, 2, on_para_eq_constraint=flag)
+        pm = unsharp_povm(c, ax, 1.0)
+        true = qobj.Povm(c, [np.array(v) for v in pm.vecs], on_para_eq_constraint=flag)
+        return qt, true, {"states": states}
+    raise ValueError(special)
+
+
 def born_probs(kind, true, testers):
     """outcome distributions from the Born rule on the coefficient vectors (independent of matA/vecB)"""
     if kind == "qst":
@@ -193,8 +243,7 @@ def rand_prob(g, m, zeros=False, bits=10):
 
 # ----------------------------------------------------------------------------- correspondence
 def correspondence(ctx):
-    ctx.notes.append("not proved (correspondence + oracle only): the row-slice arithmetic of StandardQTomography.calc_fisher_matrix, "
-                     "that matS = [I … I] sums the explicit POVM elements, the QMPT object-parametrisation formula (absent in the code: finding D13)")
+    ctx.notes.append("not proved (oracle only): the QMPT object-parametrisation formula, which the code does not have (finding D13)")
     drv = Driver("C19")
     pend = []   # (op, input, impl, idx, kind)
 
@@ -234,6 +283,8 @@ def correspondence(ctx):
             blocks.insert(int(g.integers(0, len(blocks) + 1)), dy(g, (int(g.integers(2, 4)), 1)))
         if t % 4 == 3:
             blocks.append(dy(g, (2, 3)))
+        if t % 3 == 0:      # an all-zero block in the first / a middle position
+            blocks.insert(0 if t % 2 == 0 else max(1, len(blocks) // 2), np.zeros((int(g.integers(1, 3)),) * 2))
         toks = [len(blocks)] + [x for b in blocks for x in mat_tokens(b)]
         ask_mat("dsum", [b.tolist() for b in blocks], impl_mat(lambda: mu.calc_direct_sum(blocks)), *toks)
         ctx.case(("dsum", tuple(b.shape for b in blocks), t), nontrivial=len(blocks) > 1)
@@ -252,6 +303,11 @@ def correspondence(ctx):
         G = np.linalg.pinv(A.T @ A)
         ask_mat("leftinv", (A.tolist(),), impl_mat(lambda: mu.calc_left_inv(A)),
                 A.shape[0], A.shape[1], qlist(A.flatten()), rank, qlist(G.flatten()))
+        # a different matrix of the same shape and the same Frobenius norm right afterwards
+        A2 = A[::-1].copy()
+        G2 = np.linalg.pinv(A2.T @ A2)
+        ask_mat("leftinv", (A2.tolist(), "rows reversed"), impl_mat(lambda: mu.calc_left_inv(A2)),
+                A2.shape[0], A2.shape[1], qlist(A2.flatten()), rank, qlist(G2.flatten()))
         ctx.case(("leftinv", A.shape, t), nontrivial=rank == nn)
         ctx.count("leftinv full" if rank == nn else "leftinv deficient")
     # ---- replace_prob_dist, Fisher matrix (validation branches included)
@@ -423,18 +479,25 @@ def _viol(ctx, sig, what, rep):
     ctx.violate(sig, what, rep)
 
 
-def check_qt(ctx, kind, flag, m, mo, boundary, salt, nmax, joint=False, counts=None):
+def check_qt(ctx, kind, flag, m, mo, boundary, salt, nmax, joint=False, counts=None, special=None):
     """all analytical formulas of one tomography configuration against enumeration / textbook formulas"""
     g = ctx.npgen(salt)
     rep = {"kind": "qt", "tomo": kind, "flag": flag, "m": m, "mo": mo, "boundary": boundary, "salt": salt,
-           "nmax": nmax, "joint": joint, "counts": counts}
+           "nmax": nmax, "joint": joint, "counts": counts, "special": special}
     tag = f"{kind}-{'on_para' if flag else 'free'}"
-    qt, true, testers = build(g, kind, flag, m=m, mo=mo, boundary=boundary, counts=counts)
+    if special:
+        qt, true, testers = build_special(g, kind, flag, special)
+    else:
+        qt, true, testers = build(g, kind, flag, m=m, mo=mo, boundary=boundary, counts=counts)
     S = qt.num_schedules
     ns = [int(x) for x in g.integers(1, nmax + 1, size=S)]
+    if special:   # pairwise different sample sizes
+        ns = [2 + ((j * 2 + salt) % max(2, nmax - 1)) for j in range(S)]
+        if len(set(ns)) < min(S, 3):
+            ns = [2 + j % max(2, nmax - 1) for j in range(S)]
     p_ref = born_probs(kind, true, testers)
     rep["ns"] = ns
-    ctx.case(("oracle-qt", kind, flag, m, mo, boundary, salt), sample={"op": "oracle", **{k: rep[k] for k in ("tomo", "flag", "m", "mo", "ns")}})
+    ctx.case(("oracle-qt", kind, flag, m, mo, boundary, salt, special), sample={"op": "oracle", **{k: rep[k] for k in ("tomo", "flag", "m", "mo", "ns")}})
     unequal = len({len(p) for p in p_ref}) > 1
     try:
         ps = qt.calc_prob_dists(true)
@@ -568,6 +631,13 @@ def check_helpers(ctx, salt, n):
         blocks = [g.standard_normal((k, k)) for k in ks]
         if not np.array_equal(mu.calc_direct_sum(blocks), block_diag(blocks)):
             _viol(ctx, "C19/calc_direct_sum/layout", f"block sizes {ks}", rep)
+        # all-zero blocks in first / middle / last position must still occupy their slot
+        for pos in range(len(blocks) + 1):
+            zb = blocks[:pos] + [np.zeros((int(g.integers(1, 4)),) * 2)] + blocks[pos:]
+            if not np.array_equal(mu.calc_direct_sum(zb), block_diag(zb)):
+                _viol(ctx, "C19/calc_direct_sum/zero-block", f"block sizes {[b.shape[0] for b in zb]}, all-zero block at position {pos}",
+                      {**rep, "pos": pos})
+                break
         ps = [rand_prob(g, k + 1) for k in ks]
         nsl = [int(g.integers(1, 50)) for _ in ks]
         refc = block_diag([(np.diag(x) - np.outer(x, x)) / n_ for x, n_ in zip(ps, nsl)])
@@ -582,6 +652,15 @@ def check_helpers(ctx, salt, n):
         A = g.standard_normal((int(g.integers(3, 8)), 3))
         if not np.allclose(mu.calc_left_inv(A) @ A, np.eye(3), atol=1e-9):
             _viol(ctx, "C19/calc_left_inv", "L A != 1", rep)
+        # distinct matrices of equal shape and equal Frobenius norm, one after another (row / column permutations, sign flips, rotations)
+        rot, _ = np.linalg.qr(g.standard_normal((3, 3)))
+        for name, A2 in (("rows reversed", A[::-1].copy()), ("columns permuted", A[:, [1, 2, 0]].copy()),
+                         ("sign flipped", -A), ("rotated", A @ rot)):
+            L2 = mu.calc_left_inv(A2)
+            if not np.allclose(L2 @ A2, np.eye(3), atol=1e-8):
+                _viol(ctx, "C19/calc_left_inv/sequence", f"left inverse of a second matrix with the same shape and norm ({name}) is not a left inverse: "
+                      f"max |LA-1| = {np.abs(L2 @ A2 - np.eye(3)).max():.3e}", rep)
+                break
         # squared error statistics
         R, S = int(g.integers(2, 7)), int(g.integers(1, 4))
         xsl = [[g.standard_normal(m) for _ in range(S)] for _ in range(R)]
@@ -611,7 +690,8 @@ def check_helpers(ctx, salt, n):
         r = mu.replace_prob_dist(pc, eps)
         shift = r[~small] - pc[~small]
         if not (np.all(r[small] == eps) and abs(r.sum() - pc.sum()) <= pc[small].sum() + 1e-12
-                and np.allclose(shift, shift[0], atol=1e-15) and np.array_equal(mu.replace_prob_dist(pp, eps), pp)):
+                and np.allclose(shift, shift[0], atol=1e-15)
+                and (pp.min() < eps or np.array_equal(mu.replace_prob_dist(pp, eps), pp))):
             _viol(ctx, "C19/replace_prob_dist", f"p={pc.tolist()} eps={eps}: replaced {r.tolist()} (sum {r.sum()})", {**rep, "p": pc.tolist()})
         rr = np.where(small, eps, pc - eps * small.sum() / (m - small.sum()))
         if not np.allclose(mu.calc_fisher_matrix(pc, grads, eps=eps), sum(np.outer(gx, gx) / px for gx, px in zip(grads, rr)), rtol=1e-9):
@@ -696,6 +776,19 @@ def oracle(ctx, volume=1):
         salt += 1
         ctx.count(f"oracle {kind} flag={flag}")
         check_qt(ctx, kind, flag, m, mo, boundary, salt, 2 if joint else nmax, joint=joint)
+    # boundary true objects with a deterministic NON-LAST schedule (zero covariance block first / in the middle)
+    for kind in ("qst", "povmt"):
+        for flag in (True, False):
+            for k in (0, 1) if kind == "qst" else (0, 2):
+                salt += 1
+                ctx.count(f"oracle deterministic schedule {kind} k={k}")
+                check_qt(ctx, kind, flag, 2, 2, True, salt, nmax, special=f"det:{k}")
+    # several DIFFERENT experiments with matA of equal shape and equal norm, back to back in this process
+    for flag in (True, False):
+        for i in range(len(AXES_SETS)):
+            salt += 1
+            ctx.count("oracle equal-norm tester sets in sequence")
+            check_qt(ctx, "qst", flag, 2, 2, False, salt, nmax, special=f"axes:{i}", joint=(i == 1 and flag))
     # testers with different outcome counts (property: testers with 2..4 outcomes)
     for counts in ([2, 2, 3], [2, 3, 4]):
         salt += 1
@@ -711,8 +804,13 @@ def replay(ctx, data):
     r = data["replay"]
     print("replaying", {k: v for k, v in r.items() if k not in ("pss", "gss")})
     before = len(ctx.violations)
-    if r["kind"] == "qt":
-        check_qt(ctx, r["tomo"], r["flag"], r["m"], r["mo"], r["boundary"], r["salt"], r["nmax"], joint=r["joint"], counts=r.get("counts"))
+    if r["kind"] == "qt" and str(r.get("special") or "").startswith("axes"):
+        # sequence clause: the failure may depend on the experiments evaluated before in the same process
+        for i in range(len(AXES_SETS)):
+            check_qt(ctx, r["tomo"], r["flag"], r["m"], r["mo"], r["boundary"], r["salt"] - int(r["special"].split(":")[1]) + i,
+                     r["nmax"], joint=False, special=f"axes:{i}")
+    elif r["kind"] == "qt":
+        check_qt(ctx, r["tomo"], r["flag"], r["m"], r["mo"], r["boundary"], r["salt"], r["nmax"], joint=r["joint"], counts=r.get("counts"), special=r.get("special"))
     elif r["kind"] == "helpers":
         check_helpers(ctx, r["salt"], r["n"])
     elif r["kind"] == "fishertot":
